@@ -44,4 +44,5 @@ registry! {
     c16::C16,
     c17::C17,
     c18::C18,
+    c19::C19,
 }
